@@ -58,7 +58,12 @@ type callTokenData struct {
 type cursorTokenData struct {
 	CreatedAt int64
 	CallID    string // the call token this cursor belongs to
-	State     interface{}
+	// Method is the stream method that minted this cursor. A cursor resumes
+	// only that method: handleStreamExchange refuses it on any other method's
+	// continuation route, so one method's state never reaches another
+	// method's code.
+	Method string
+	State  interface{}
 }
 
 // resolvedCall is what an authenticated CallID resolves to — either from the
@@ -468,12 +473,20 @@ func (h *HttpServer) packCallToken(callID string, outputSchema *arrow.Schema, au
 	return token, nil
 }
 
-// packCursorToken seals the advancing half. Re-minted every turn; this is
-// the only token a response returns.
+// packCursorToken seals a cursor that is bound to no method. No continuation
+// route accepts such a cursor; request paths mint with packMethodCursorToken.
 func (h *HttpServer) packCursorToken(callID string, state interface{}, auth *AuthContext) ([]byte, error) {
+	return h.packMethodCursorToken("", callID, state, auth)
+}
+
+// packMethodCursorToken seals the advancing half for the stream method that
+// is minting it. Re-minted every turn; this is the only token a response
+// returns.
+func (h *HttpServer) packMethodCursorToken(method, callID string, state interface{}, auth *AuthContext) ([]byte, error) {
 	data := cursorTokenData{
 		CreatedAt: time.Now().Unix(),
 		CallID:    callID,
+		Method:    method,
 		State:     state,
 	}
 	return h.sealToken(cursorTokenVersion, &data, stateTokenAad(auth))
